@@ -534,23 +534,34 @@ def call_heap_method(spec, fn, case):
     sentinel = fn.__globals__[cls['sentinels'][0]] if cls.get('sentinels') else object()
     obj = heap_build(cls, pycls, case['self'], sentinel)
     pos = []
+    kw = {}
+    omitted = False
     for p, tt in spec['params'].items():
         v = to_py(py2lean.parse_type(tt), case[py2lean.mangle(p)])
         if v is None and cls.get('sentinels') and py2lean.parse_type(tt)[0] == 'Option':
-            break           # `none` of a parameter whose Python default is an "omitted" marker: omit the argument
-        pos.append(v)
-    kw = {}
+            omitted = True  # `none` of a parameter whose Python default is an "omitted" marker: omit the argument
+            continue
+        if omitted:         # round 3e: a later argument that IS given (`poplast(default=5)`) goes by keyword
+            if spec.get('key_locals') is None:
+                break       # (the behaviour before round 3e for every other spec)
+            kw[p] = v
+        else:
+            pos.append(v)
     for kn, kt in spec.get('kwargs', {}).items():
         kw.update(to_py(py2lean.parse_type(kt), case[kn]))
     try:
         with common.time_limit(5):
             r = fn(obj, *pos, **kw)
+            if spec.get('kind') == 'generator' and spec.get('key_locals') is not None:
+                r = list(r)     # round 3e: a generator is the list of what it yields, or the exception that ends it
         res = ('ok', r)
     except common.CaseTimeout:
         res = ('exc', 'CaseTimeout')
     except Exception as e:  # noqa: BLE001
         res = ('exc', type(e).__name__)
     rt = py2lean.parse_type(spec['result'])
+    if spec.get('kind') == 'generator' and spec.get('key_locals') is not None:
+        rt = ('List', rt)
     if res[0] == 'ok' and rt == ('Val',):
         snap, (rs,) = heap_snapshot(cls, obj, sentinel, [res[1]])
         return heap_canon(cls, snap, ('ok', rs))
@@ -1868,6 +1879,15 @@ def run(pids, quick=False, seed=0, verbose=True, snippets=False):
             else:                               # a method that changes nothing returns its value only
                 want = want[:1]
                 got_c = [list(('exc', val[1]) if val[0] == 0 else ('ok', dec(rtype, val, 1)[0]))]
+            if spec.get('key_locals') is not None:      # round 3e: yielded pairs: tuples and lists are one notation
+                def _tl(v):
+                    return [_tl(x) for x in v] if isinstance(v, (list, tuple)) else v
+                want, got_c = _tl(want), _tl(got_c)
+            if spec.get('key_locals') is not None and list(got_c[0]) == ['exc', 7]:
+                # round 3e: the checked unboxing of a key failed (`PyExc.Other`): the translation says "not modelled" (a
+                # state outside the class's reach: `root[PREV]` is not a cell although the dict is not empty); counted
+                r['unmodelled'] = r.get('unmodelled', 0) + 1
+                continue
             r['compared'] += 1
             if want[0][0] == 'exc':
                 r['python_raises'] += 1
